@@ -1,5 +1,6 @@
 """C02 — the decoder implements the published derivation grammar (clause level).
 
+T0     every fragment's derivation starts in the grammar's start state X0 with no previous atom
 T1–T4  per-path summaries of one iteration of the derivation loop (symbolic engine) are compared
        with the grammar's transition for atom / branch / ring / [epsilon] symbols
 T5     folded branch / ring tables equal the specification tables
@@ -328,6 +329,11 @@ def run(ctx, rep):
     D = R["D"]
     its = decmodel.iterations(m)
     check_validated_dispatch(rep, m, its, "T8")
+    ts = R.get("top_state", 0)
+    rep.ob("T0", ts == 0, R["top_call"], ctx.api("decoder"), construct="top-level derivation call",
+           how="every fragment's derivation starts in state X0 (constant 0) with no previous atom",
+           witness=None if ts == 0 else "the derivation starts in state %r, not in the grammar's start state X0" % (ts,),
+           key="start-state", nontrivial=True)
     kinds = {}
     for it in its:
         kinds[it.kind] = kinds.get(it.kind, 0) + 1
